@@ -635,4 +635,87 @@ def c04_chief_ray(ctx):
     from .C04 import chief_ray as _r
     return _r(ctx)
 
-RULES = [c04_chief_ray, c01_arg_wiring_rule, c01_init_stores, scale_homogeneous, scale_system, scale_relies_on_thickness_edit, mirror, w_flow, dummy_identity]
+LENGTH_ATTRS = {
+    # attribute written (typed store) : what it is
+    ('CoordinateSystem', 'x'): 'decentres (cs.x, cs.y)',
+    ('CoordinateSystem', 'y'): 'decentres (cs.x, cs.y)',
+    ('EvenAsphere', 'c'): 'aspheric / polynomial coefficients and norms',
+    ('PolynomialGeometry', 'c'): 'aspheric / polynomial coefficients and norms',
+    ('ChebyshevPolynomialGeometry', 'c'):
+        'aspheric / polynomial coefficients and norms',
+    ('ChebyshevPolynomialGeometry', 'norm_x'):
+        'aspheric / polynomial coefficients and norms',
+    ('Field', 'y'): 'object-height field values',
+}
+
+
+def scale_covers(ctx):
+    """every quantity of the prescription that is a length (or a power of a
+    length) is multiplied by scale_system; the list comes from the dimension
+    table of the design (A.2): radii, thicknesses, EPD and physical apertures
+    are handled, the ones below are checked here"""
+    P, eff = ctx.P, ctx.effects
+    res = Result('SCALE-COVERS', 'scale_system writes every length-valued '
+                 'prescription quantity: decentres, aspheric / polynomial '
+                 'coefficients (as powers of the length) and norms, '
+                 'object-height fields')
+    f = P.func('Optic.scale_system')
+    res.saw(f)
+    written = set()
+    for g in eff.closure(f):
+        fe = eff.fe.get(g.qual if hasattr(g, 'qual') else g)
+        if fe is None:
+            continue
+        for st in fe.stores:
+            written.add((st.base_t, st.attr))
+    missing = {}
+    for (cn, attr), what in LENGTH_ATTRS.items():
+        hit = any(a == attr and (t == cn or (t in P.classes and
+                                            cn in P.mro(t)) or
+                                 (cn in P.classes and t in P.mro(cn)))
+                  for t, a in written if t)
+        if not hit:
+            missing.setdefault(what, []).append(f'{cn}.{attr}')
+    # the power of s each coefficient gets is the dimension of the coefficient:
+    # a sag term c x^p y^q is a length, so c scales with s^(1 - p - q)
+    from ..match import find
+    laws = [
+        ('even asphere: c_i r^(2(i+1)) -> c_i s^(1 - 2(i+1))',
+         find(f, '[$c * scale_factor ** (1 - 2 * ($i + 1)) '
+                 'for $i, $c in enumerate($g.c)]') or
+         find(f, '$g.c[$i] *= scale_factor ** (1 - 2 * ($i + 1))')),
+        ('polynomial: c_ij x^i y^j -> c_ij s^(1 - i - j)',
+         find(f, '$g.c[$i][$j] *= scale_factor ** (1 - $i - $j)')),
+        ('Chebyshev: coefficients and normalisation lengths -> x s',
+         find(f, '$g.c = $g.c * scale_factor') and
+         find(f, '$g.norm_x = $g.norm_x * scale_factor') and
+         find(f, '$g.norm_y = $g.norm_y * scale_factor')),
+        ('decentres -> x s',
+         find(f, '$g.cs.x = $g.cs.x * scale_factor') and
+         find(f, '$g.cs.y = $g.cs.y * scale_factor')),
+    ]
+    if 'aspheric / polynomial coefficients and norms' not in missing and \
+            'decentres (cs.x, cs.y)' not in missing:
+        for what_, ok_ in laws:
+            if ok_:
+                res.ok('scale_system: ' + what_)
+            else:
+                res.fail(ctx.finding(
+                    'SCALE-COVERS', f, f.node,
+                    'scale_system does not multiply by the power of s the '
+                    'quantity carries: ' + what_,
+                    construct='scale power: ' + what_.split(':')[0]))
+    for what in sorted(set(LENGTH_ATTRS.values())):
+        if what in missing:
+            res.fail(ctx.finding(
+                'SCALE-COVERS', f, f.node,
+                f'scale_system does not scale the {what} '
+                f'({", ".join(missing[what])}): the result is not the lens '
+                f'with every length multiplied by s',
+                construct=f'scale_system leaves {what}'))
+        else:
+            res.ok(f'scale_system scales the {what}')
+    return res
+
+
+RULES = [scale_covers, c04_chief_ray, c01_arg_wiring_rule, c01_init_stores, scale_homogeneous, scale_system, scale_relies_on_thickness_edit, mirror, w_flow, dummy_identity]
